@@ -96,6 +96,22 @@ def make_world(wid, graph, rng, *, kinds='class', hooks='all', faults=None,
         order.append(lname)
     if owners is None:
         owners = [l for l in order if rng.random() < 0.7] or order[-1:]
+    # two different layer objects may carry the same dotted name (instances
+    # made by one factory); only for layers that own no tests - tests are
+    # grouped by layer *name*
+    # (same bases too: the twins are told apart by identity alone).  They are
+    # made as two extra root layers under one instance layer that owns tests.
+    hosts = [l for l in owners if layers[l]['kind'] == 'instance']
+    if hosts and rng.random() < 0.12:
+        host = rng.choice(hosts)
+        for t in ('Lt1', 'Lt2'):
+            layers[t] = {'kind': 'instance', 'bases': [], 'pyname': 'twin',
+                         'hooks': ['setUp', 'tearDown', 'testSetUp', 'testTearDown']
+                         if hooks == 'all' or rng.random() < 0.7 else ['testSetUp', 'testTearDown']}
+            # (their hooks do not fail: a failure report could only name "twin")
+        at = rng.randint(0, len(layers[host]['bases']))
+        layers[host]['bases'] = layers[host]['bases'][:at] + ['Lt1', 'Lt2'] + layers[host]['bases'][at:]
+        order = ['Lt1', 'Lt2'] + order
     classes = {}
     tests = {}
     k = 0
@@ -123,7 +139,9 @@ def fault_vector(rng, p_su=0.12, p_td=0.12, p_ni=0.15):
     def f(lname):
         d = {}
         if rng.random() < p_su:
-            d['setUp'] = 'raise'
+            # (NotImplementedError has a meaning for tearDown only: from a
+            # setUp it is a failure like any other)
+            d['setUp'] = 'raise' if rng.random() < 0.75 else 'notimpl'
         r = rng.random()
         if r < p_td:
             d['tearDown'] = 'raise'
